@@ -100,8 +100,9 @@ func vp_C16_allowdeny() {
 	denied, dShadow := vpInAny(ip4, deny)
 	allowed, aShadow := vpInAny(ip4, allow)
 	want := !denied && allowed
-	// KF-C16-1: inRange gives up at the first unparsable entry, so later ranges of that list are ignored
-	vpAssertKF("allow-deny", got == want, "KF-C16-1", dShadow || aShadow)
+	// (fixed: KF-C16-1 - inRange gave up at the first unparsable entry, so later ranges of that list were ignored)
+	_, _ = dShadow, aShadow
+	vpAssert("allow-deny", got == want)
 	vpReach("let-through", got)
 	vpReach("blocked-by-deny", !got && denied)
 	vpReach("not-in-allow", !got && !denied && !allowed)
